@@ -133,6 +133,8 @@ def _apply_section(sec, head, it, data, s0, e0, what, edits, drop, tags_box, ret
         edits.append(Edit(b, b, ")", "ins:ret", tl))
     elif kw == "spec":
         edits.append(Edit(it["body"][0], it["body"][0], "\n" + body + "\n", "ins:spec", tl))
+    elif kw == "enter":
+        edits.append(Edit(it["body"][0] + 1, it["body"][0] + 1, "\n" + body + "\n", "ins:enter", tl))
     elif kw == "loop":
         k = int(w[1].rstrip(":"))
         if k >= len(it["loops"]):
@@ -149,9 +151,10 @@ def _apply_section(sec, head, it, data, s0, e0, what, edits, drop, tags_box, ret
         if not m:
             raise GenError(f"template line {tl}: bad anchor syntax")
         nth = int(m.group(2)) if m.group(2) else None
-        off = s0 + find_anchor(data[s0:e0], m.group(1), nth, what)
+        anchor = m.group(1).replace("\\n", "\n")
+        off = s0 + find_anchor(data[s0:e0], anchor, nth, what)
         if kw == "after":
-            off += len(m.group(1).encode())
+            off += len(anchor.encode())
         edits.append(Edit(off, off, ("\n" if kw == "before" else " ") + body + "\n", "ins:" + kw, tl))
     elif kw == "closure":
         k = int(w[1].rstrip(":"))
@@ -183,6 +186,7 @@ def _apply_section(sec, head, it, data, s0, e0, what, edits, drop, tags_box, ret
         if len(ms) != 2:
             raise GenError(f"template line {tl}: rewrite needs `from` => `to`")
         (frm, n1), (to, _) = ms
+        frm = frm.replace("\\n", "\n")
         nth = int(n1) if n1 else None
         off = s0 + find_anchor(data[s0:e0], frm, nth, what)
         edits.append(Edit(off, off + len(frm.encode()), to, "X4:rewrite", tl))
@@ -346,12 +350,15 @@ def expand_type(repo, d, log):
     s0, e0 = it["span"]
     derive = None
     extra_attrs = []
+    rewrites = []
     for sec in d["sections"]:
         w = sec["head"].split(None, 1)
         if w[0] == "derive":
             derive = [x.strip() for x in w[1].split(",")] if len(w) > 1 else []
         elif w[0] == "attr":
             extra_attrs.append(w[1])
+        elif w[0] == "rewrite":
+            rewrites.append(ANCH.findall(sec["head"]))
         else:
             raise GenError(f"template line {sec['tline']}: unknown type section '{sec['head']}'")
     out = b""
@@ -379,10 +386,16 @@ def expand_type(repo, d, log):
     body = data[it["after_attrs"]:e0]
     # X1: drop serde/strum/enum_map attribute lines on fields and variants
     stripped = ATTR_LINE.sub(b"", body)
+    for ms in rewrites:
+        (frm, _), (to, _) = ms
+        if stripped.count(frm.encode()) != 1:
+            raise GenError(f"{rel}::{path}: type rewrite anchor `{frm}` matches {stripped.count(frm.encode())} times")
+        stripped = stripped.replace(frm.encode(), to.encode())
+        log.append({"rule": "X1:visibility", "file": rel, "item": path, "line": line_of(data, s0), "before": frm, "after": to})
     log.append({"rule": "X1:type-attrs", "file": rel, "item": path, "line": line_of(data, s0),
                 "before": ", ".join(orig_derives), "after": ", ".join(derive),
                 "dropped_inner_attr_lines": [m.group(0).decode().strip() for m in ATTR_LINE.finditer(body)]})
-    segs = [(head, ("tmpl", d["tline"])), (stripped, ("src", rel, it["after_attrs"]))]
+    segs = [(head, ("tmpl", d["tline"])), (stripped, ("src", rel, it["after_attrs"]) if not rewrites and stripped == body else ("tmpl", d["tline"]))]
     info = {"file": rel, "path": path, "kind": it["kind"], "line": line_of(data, s0), "derive": derive,
             "sha": hashlib.sha256(stripped).hexdigest()[:16]}
     return segs, info
